@@ -8,45 +8,6 @@ package boltz
 // An error holder latches: no code in scope resets ErrorHolderImpl.Err to nil once it is set.
 //@ monotone H.errorz.ErrorHolderImpl.Err.typ
 
-//@ func (*BaseStore).Create
-//@   props C07
-//@   errflow
-//@   nosafety
-//@   modifies *
-//@   lensures[holder] bucket != nil && bucket.Err != nil ==> result != nil
-
-//@ func (*BaseStore).DeleteById
-//@   props C07
-//@   errflow
-//@   nosafety
-//@   modifies *
-
-//@ func (*BaseStore).DeleteWhere
-//@   props C07
-//@   errflow
-//@   nosafety
-//@   modifies *
-
-//@ func (*BaseStore).Update
-//@   props C07
-//@   errflow
-//@   nosafety
-//@   modifies *
-//@   lensures[holder] bucket != nil && bucket.Err != nil ==> result != nil
-
-//@ func (*BaseStore).fireParentEvent
-//@   props C07
-//@   errflow
-//@   nosafety
-//@   modifies *
-
-//@ func (*BaseStore).processDeleteConstraints
-//@   props C07
-//@   errflow
-//@   nosafety
-//@   modifies *
-//@   lensures[holder] errHolder.Err != nil ==> result1 != nil
-
 //@ func (*ChildStoreUpdateHandler).HandleDelete
 //@   props C07
 //@   errflow
@@ -83,25 +44,15 @@ package boltz
 //@   nosafety
 //@   modifies *
 
-//@ func (*EntityChangeState).fireEvents
-//@   props C07
-//@   errflow
-//@   nosafety
-//@   modifies *
-
 //@ func (*EntityChangeState).init
-//@   props C07
+//@   props C07 C08
 //@   errflow
 //@   nosafety
-//@   modifies *
+//@   waive immutable two-step construction: the state was allocated by the caller just before and is filled here before anything else sees it
+//@   modifies *, self.Ctx
+//@   ensures[context-set] self.Ctx == ctx
 
 //@ func (*EntityChangeState).loadFinalState
-//@   props C07
-//@   errflow
-//@   nosafety
-//@   modifies *
-
-//@ func (*EntityChangeState).processPreCommit
 //@   props C07
 //@   errflow
 //@   nosafety
@@ -118,6 +69,7 @@ package boltz
 //@   errflow
 //@   nosafety
 //@   modifies *
+//@   censures[a-successful-repair-writes] result == nil ==> ciDirty
 
 //@ func (*LinkedSetSymbol).AddLinkS
 //@   props C07
@@ -249,6 +201,7 @@ package boltz
 //@   errflow
 //@   nosafety
 //@   modifies *
+//@   censures[a-successful-repair-writes] result1 == nil ==> ciDirty
 
 //@ func (*linkCollectionImpl).RemoveLinks
 //@   props C07
@@ -351,6 +304,7 @@ package boltz
 //@   errflow
 //@   nosafety
 //@   modifies *
+//@   censures[a-successful-repair-writes] result == nil ==> ciDirty
 
 //@ func (*untypedEntityConstraintWrapper).ProcessPreCommit
 //@   props C07
@@ -386,8 +340,3 @@ package boltz
 //@   modifies *
 
 // A child-store strategy that does not handle an update has nothing to report.
-//@ func (ChildStoreStrategy).HandleUpdate
-//@   props C07
-//@   impl all
-//@   modifies *
-//@   ensures[unhandled-has-no-error] !result0 ==> result1 == nil
